@@ -13,6 +13,7 @@ import Driver.C20
 import Driver.C11
 import Driver.C12
 import Driver.C04
+import Driver.C12V
 import Driver.C06
 import Driver.C13
 import Driver.C17
@@ -66,6 +67,8 @@ def dispatch (c : Conf) (op : String) (args : List String) (got : String) : Opti
     | some e => C03.handle e c.w op args got
     | none => none) <|> (C07.handle e01.cfg op args) <|> (C09.handle c.w c.size c.digs op args got) <|> (C14.handle op args) <|> (C15.handle c.w c.size op args got) <|> (C19.handle latch op args) <|> (C20.handle c.ep c.w op args got) <|> (C18.handle c.ep c.w op args got) <|> (C18.handleSel c.w op args got) <|> (C08.handle op args got) <|> (match c.ep2 with
     | some e => C11.handle e c.w op args got
+    | none => none) <|> (match c.pc4 with
+    | some e => C12V.handle e op args got
     | none => none) <|> (match c.pc4 with
     | some e => C04.handle e op args got
     | none => none) <|> (match c.pc4m with
